@@ -99,7 +99,7 @@ func readOf(v ssa.Value) (a, b, n int64, ok bool) {
 }
 
 func runC13(c *core.Ctx) core.Meta {
-	c.Load(instsPkg)
+	c.Load(instsPkg, driverPkg)
 	c.BuildSSA()
 	lp := core.NewLocalProv(c)
 	pi := NewPkgInfo(c, instsPkg)
@@ -767,6 +767,7 @@ func runC13(c *core.Ctx) core.Meta {
 	}
 
 	checkRaiseOnlyUpdates(c)
+	checkDynamicLDSPlacement(c)
 
 	return core.Meta{Level: "other",
 		Explanation: "Loading decided against an external oracle, the published amd_kernel_code_t and kernel_descriptor_t layouts transcribed as offset/width tables: every metadata read of both parsers and of the header sniffer is compared with its table row (offset, width, slice width, flag bit), bounds of the parsers against what their callers establish, precedence of the V5 descriptor over header sniffing, stripping only under a positive sniff, kernel bytes = the named symbol's range of .text, descriptor selected by name+\".kd\", size 64, inside .rodata.",
@@ -939,6 +940,90 @@ func checkRaiseOnlyUpdates(c *core.Ctx) {
 							g = core.BuildGraph(fn, 0, nil)
 						}
 						armOf(g, fn, sto, sfa)
+					}
+				}
+			}
+		}
+	}
+}
+
+// checkDynamicLDSPlacement (R13.8): the static LDS size of the loaded code object reaches the
+// dispatch. The driver places the dynamically sized local buffers (LocalPtr arguments) behind the
+// kernel's static LDS: the offsets it writes into the kernel arguments are a running sum that
+// starts at KernelCodeObject.GroupSegmentByteSize, and the packet's GroupSegmentSize is that sum.
+func checkDynamicLDSPlacement(c *core.Ctx) {
+	st := c.Rule("R13.8", "the static LDS size stored in the file (KernelCodeObject.GroupSegmentByteSize) reaches the dispatch: in the driver, every offset written into a kernel argument with reflect.Value.SetUint (the LDS offset of a LocalPtr argument) is a running sum whose start value derives from GroupSegmentByteSize, and every store to HsaKernelDispatchPacket.GroupSegmentSize derives from it too. Offsets that start at 0 put the dynamic buffers on top of the kernel's static LDS variables", 2)
+	pd := NewPkgInfo(c, driverPkg)
+	if pd.Pkg == nil {
+		return
+	}
+	derives := func(v ssa.Value) bool {
+		seen := map[ssa.Value]bool{}
+		var walk func(v ssa.Value, d int) bool
+		walk = func(v ssa.Value, d int) bool {
+			if v == nil || seen[v] || d > 10 {
+				return false
+			}
+			seen[v] = true
+			if f := core.LoadedField(v); f != nil && f.Name() == "GroupSegmentByteSize" {
+				return true
+			}
+			switch x := v.(type) {
+			case *ssa.Convert:
+				return walk(x.X, d+1)
+			case *ssa.ChangeType:
+				return walk(x.X, d+1)
+			case *ssa.BinOp:
+				return walk(x.X, d+1) || walk(x.Y, d+1)
+			case *ssa.Phi:
+				for _, e := range x.Edges {
+					if walk(e, d+1) {
+						return true
+					}
+				}
+			case *ssa.UnOp:
+				// a local spilled to memory (captured or address-taken)
+				if al, ok := x.X.(*ssa.Alloc); ok && x.Op == token.MUL && al.Referrers() != nil {
+					for _, r := range *al.Referrers() {
+						if sto, ok := r.(*ssa.Store); ok && sto.Addr == ssa.Value(al) && walk(sto.Val, d+1) {
+							return true
+						}
+					}
+				}
+			}
+			return false
+		}
+		return walk(v, 0)
+	}
+	for _, fn := range pd.Funcs {
+		for _, b := range fn.Blocks {
+			for _, in := range b.Instrs {
+				switch x := in.(type) {
+				case *ssa.Call:
+					cal := x.Call.StaticCallee()
+					if cal == nil || cal.Name() != "SetUint" || cal.Pkg == nil || cal.Pkg.Pkg.Path() != "reflect" {
+						continue
+					}
+					st.Instances++
+					c.MarkAnalysed(fn)
+					ok := derives(x.Call.Args[len(x.Call.Args)-1])
+					st.Ob(ok)
+					st.Sample("%s: the offset written into a LocalPtr argument starts behind the static LDS: %v", core.FuncName(fn), ok)
+					if !ok {
+						c.ReportAt("R13.8", fn, x.Pos(), "lds-offset-ignores-static-size:"+core.FuncName(fn), core.FuncName(fn)+" writes into a kernel argument an LDS offset that does not depend on the code object's GroupSegmentByteSize: the first dynamic buffer is placed at offset 0, inside the kernel's static LDS region, for every kernel that has both static LDS and LocalPtr arguments")
+					}
+				case *ssa.Store:
+					f := core.FieldOfAddr(x.Addr)
+					if f == nil || f.Name() != "GroupSegmentSize" {
+						continue
+					}
+					st.Instances++
+					c.MarkAnalysed(fn)
+					ok := derives(x.Val)
+					st.Ob(ok)
+					st.Sample("%s: the packet's GroupSegmentSize includes the static LDS size: %v", core.FuncName(fn), ok)
+					if !ok {
+						c.ReportAt("R13.8", fn, x.Pos(), "segment-size-ignores-static-size:"+core.FuncName(fn), core.FuncName(fn)+" stores a GroupSegmentSize that does not depend on the code object's GroupSegmentByteSize: the work-group is given less LDS than the kernel's static variables need")
 					}
 				}
 			}
